@@ -51,6 +51,9 @@ type vC15Req struct {
 	n       int
 	kind    string // Rr Rc Ic Wc Tc Dc Wr
 	db      string
+	at      time.Time // when the node asked
+	second  bool      // second read of a wait loop (the wait gives up after it)
+	afterWr bool      // the node's previous storage operation was a registry write
 	granted chan struct{}
 	done    chan struct{}
 }
@@ -244,7 +247,8 @@ func (nd *vC15Node) step(kind string, db string, val vObj, isWrite bool, f func(
 	c := nd.ctl
 	var req *vC15Req
 	if c.gated {
-		req = &vC15Req{n: nd.n, kind: kind, db: db, granted: make(chan struct{}), done: make(chan struct{})}
+		req = &vC15Req{n: nd.n, kind: kind, db: db, granted: make(chan struct{}), done: make(chan struct{}), at: time.Now(),
+			second: kind == "Rc" && nd.lastKind == "Rc" && nd.lastDB == db, afterWr: nd.lastKind == "Wr"}
 		c.reqs <- req
 		<-req.granted
 		defer close(req.done)
@@ -778,8 +782,11 @@ func writeFileC15(p string, b []byte) error { return os.WriteFile(p, b, 0644) }
 // (2) two-node race replay: a schedule (from a TLC behaviour of the two-node model) is forced through the gates.
 // Schedule entries: {a:"Start", n, t, db, colls} | {a:"Step", n} (node n performs its next storage operation,
 // whatever it is) | {a:"Crash", n}.  What the real code does at each step is recorded, not prescribed: conformance with
-// the behaviour is judged afterwards by TLC (pass C).  The only timing rule: the second read of a wait loop is held
-// until configRetryTimeout has certainly elapsed, so that "read again, then give up" is one deterministic step.
+// the behaviour is judged afterwards by TLC (pass C).  Timing: the second read of a wait loop is held until
+// configRetryTimeout has certainly elapsed, so that "read again, then give up" is one deterministic step; and the
+// specification's timing assumption is enforced here as well (the scheduler stops the clock of a held node, the real
+// timers do not): a read after which the wait may give up - the second one, or a first one that has been held for a while -
+// is not granted while another LIVE node is between its registry write and its config write for that database.
 
 type vC15Race struct {
 	ID    string      `json:"id"`
@@ -818,10 +825,41 @@ func (q *vC15Sched) await(n int) {
 	}
 }
 
+// inWindow: node m (alive) has written the registry for db and is about to write db's config document.
+func (q *vC15Sched) inWindow(m int, db string) bool {
+	r := q.pending[m]
+	if r == nil || r.db != db {
+		return false
+	}
+	if nd, ok := q.s.nodes[m]; ok && nd.dead {
+		return false
+	}
+	return r.kind == "Ic" || r.kind == "Wc" || (r.kind == "Dc" && r.afterWr)
+}
+
+// grantable: see the timing rule above.
+func (q *vC15Sched) grantable(n int) bool {
+	r := q.pending[n]
+	if r == nil {
+		return false
+	}
+	if nd, ok := q.s.nodes[n]; ok && nd.dead {
+		return true // a dead node's reads are of no consequence
+	}
+	if r.kind == "Rc" && (r.second || time.Since(r.at) > q.s.ctl.timeout/3) {
+		for m := range q.pending {
+			if m != n && q.inWindow(m, r.db) {
+				return false
+			}
+		}
+	}
+	return true
+}
+
 // grant lets node n perform the storage operation it is waiting to do, and waits until it is quiescent again.
 func (q *vC15Sched) grant(n int) {
 	r := q.pending[n]
-	if r == nil {
+	if r == nil || !q.grantable(n) {
 		return
 	}
 	q.pending[n] = nil
@@ -830,14 +868,42 @@ func (q *vC15Sched) grant(n int) {
 	q.await(n)
 }
 
-func (q *vC15Sched) drain(n int) {
-	for q.running[n] && !q.hung {
-		q.await(n)
-		q.grant(n)
+// drain lets the given nodes run to the end of their calls (a node that must wait for another one waits).
+func (q *vC15Sched) drain(ns ...int) {
+	for !q.hung {
+		active, progressed := false, false
+		for _, n := range ns {
+			if q.running[n] {
+				q.await(n)
+			}
+			if q.running[n] && !q.hung {
+				active = true
+				if q.grantable(n) {
+					q.grant(n)
+					progressed = true
+				}
+			}
+		}
+		if !active {
+			return
+		}
+		if !progressed {
+			// only possible if the node to wait for is not among ns: let everybody run
+			for _, m := range []int{1, 2} {
+				if q.running[m] && q.grantable(m) {
+					q.grant(m)
+					progressed = true
+				}
+			}
+			if !progressed {
+				q.hung = true
+			}
+		}
 	}
 }
 
 func vC15RunRaces(t *testing.T, ctl *vC15Ctl, ds vC15RawStore, races []vC15Race, bound time.Duration, index *[]vObj) {
+	ctl.timeout = 3 * ctl.timeout // held nodes: leave room between "asked" and "granted"
 	for _, rc := range races {
 		for attempt := 0; attempt < 2; attempt++ {
 			ctl.gated = false
@@ -885,9 +951,7 @@ func vC15RunRaces(t *testing.T, ctl *vC15Ctl, ds vC15RawStore, races []vC15Race,
 					}
 				}
 			}
-			for _, n := range []int{1, 2} {
-				q.drain(n)
-			}
+			q.drain(1, 2)
 			ctl.gated = false
 			if q.hung {
 				if attempt == 0 {
